@@ -298,6 +298,10 @@ func (app *EVMApp) genExecFun(block *gtypes.Block, res *gtypes.ExecuteResult) Be
 		tempKeyValueUpdateHistories := make([]*gtypes.KeyValueHistory, 0)
 
 		execFunc := func(txIndex int, raw []byte, tx *etypes.Transaction) error {
+			if tx == nil {
+				// an empty byte string in the block's transaction list decodes to no transaction at all
+				return errors.New("empty transaction")
+			}
 			txType := common.Bytes2Hex(tx.Data())
 			if strings.HasPrefix(txType, common.Bytes2Hex(rtypes.KVTxType)) {
 				kv, err := app.executeKVTx(state, tx)
